@@ -43,7 +43,7 @@ def profile_model(m):
     }
 
 
-def judge(chk, beh, recs, problems, cfgdesc, stats):
+def judge(chk, beh, recs, problems, cfgdesc, stats, types=None):
     replay = {"behaviour": beh, "config": cfgdesc}
     prev = None
     for rec in recs:
@@ -141,6 +141,14 @@ def run(tier):
     if not q:
         plans.append({"name": "c11-cap1k2", "cap": 1, "k": 2, "gen_len": 9, "n_sim": 300, "n_rep": 200})
     stats = storage.campaign(chk, "C11", plans, TYPES, CTXS, bindir, judge, rnd)
+    # two ACTIVE shards (spec/Storage2Gen.tla): the same monitors on each shard's directory tree while the other shard
+    # stores, flushes, compacts and crashes in the same process
+    sp = storage.campaign2(chk, "C11", [{"name": "c11p-cap2k2", "cap": 2, "k": 2, "gen_len": 10, "n_sim": 400, "n_rep": 8 if q else 120}],
+                           CTXS, bindir, judge, random.Random(core.seed() + 111))
+    chk.cov["traces_validated_against_impl"] += sp["behaviours"]
+    stats["observations"] += sp["observations"]
+    stats["segment_dirs_hashed"] += sp["segment_dirs_hashed"]
+    stats["layout_drift"] += sp["layout_drift"]
     chk.cov["evaluations"] = stats["observations"]
     chk.cov["distinct_nontrivial"] = stats["segment_dirs_hashed"]
     chk.cov["rule"] = ("one evaluation = one file-system observation (every file of every segment directory hashed, index decoded, "
